@@ -159,6 +159,13 @@ def connect_interval(src_group: SimGroup, dest_group: SimGroup, time_shifted: in
     if weak:
         assert cutoff >= 2
         list_tiers[cutoff - 1] = weak
+    if time_shifted:
+        # The data arrives in a later time step, where the sub-times
+        # start from 0 again (as for self-steps and for output times in
+        # the future). Otherwise, the sub-time of a loop that is closed
+        # by a time-shifted connection keeps growing from time step to
+        # time step until it hits max_loop_iterations.
+        cutoff = 1
     return TieredInterval(*list_tiers, cutoff=cutoff, pre_length=pre_length)
 
 
